@@ -48,33 +48,38 @@ Definition take_upto (n : N) (l : bytes) : bytes * bytes :=
 
 (** the loop over the bit widths of one block.  For a non-zero width the
     mini-block is [miniBlockSize = numValuesInMiniBlock*bitWidth/8] bytes, or
-    all that is left when the input is shorter (no error); it is unpacked
-    from a zero-filled temporary buffer when less than miniBlockSize+padding
-    bytes are available, so missing bytes read as zeros ([of_le] of the bytes
-    present); [bitpack.Unpack] of [n] values is evaluated 8 values at a time
+    all that is left when the input is shorter: the last mini-block may come
+    without its padding, but (since b47fdb3) the bits of the [n] values it
+    still has to provide must be present: [need := (n*bitWidth+7)/8; if need >
+    len(miniBlockData)] error.  A short mini-block is unpacked from a
+    zero-filled temporary buffer ([of_le] of the bytes present);
+    [bitpack.Unpack] of [n] values is evaluated 8 values at a time
     ([GoDecBase.go_unpack_chunks]; the mini-block holds [vpm/8] groups, the
-    first [n] values are kept: a value does not depend on those after it).  Zero-width mini-blocks leave the zeros of the freshly resized
+    first [n] values are kept: a value does not depend on those after it).
+    Zero-width mini-blocks leave the zeros of the freshly resized
     destination.  Returns the unpacked values of the block (before the prefix
     sums), the remaining input, the remaining count and (for the differential
     runs only: the assembly kernels are not modelled for widths above the
     width of the type) the largest bit width used. *)
 Fixpoint go_dbp_miniblocks (tw vpm : N) (ws : list N) (src : bytes) (remaining : N)
-  : list N * bytes * N * N :=
+  : gres (list N * bytes * N * N) :=
   match ws with
-  | [] => ([], src, remaining, 0)
+  | [] => GOk ([], src, remaining, 0)
   | w :: ws' =>
       let n := N.min vpm remaining in
-      let '(vals, src') :=
-        if w =? 0 then (repeat 0 (N.to_nat n), src)
-        else
-          let size := N.to_nat (vpm * w / 8) in
-          (firstn (N.to_nat n) (go_unpack_chunks tw w (N.to_nat (vpm / 8)) (firstn size src)),
-           skipn size src) in
-      let remaining' := remaining - n in
-      if remaining' =? 0 then (vals, src', remaining', w)      (* break *)
+      let size := N.to_nat (vpm * w / 8) in
+      if negb (w =? 0) && (N.of_nat (length (firstn size src)) <? (n * w + 7) / 8) then GErr
       else
-        let '(vs, s, r, wm) := go_dbp_miniblocks tw vpm ws' src' remaining' in
-        (vals ++ vs, s, r, N.max w wm)
+        let '(vals, src') :=
+          if w =? 0 then (repeat 0 (N.to_nat n), src)
+          else
+            (firstn (N.to_nat n) (go_unpack_chunks tw w (N.to_nat (vpm / 8)) (firstn size src)),
+             skipn size src) in
+        let remaining' := remaining - n in
+        if remaining' =? 0 then GOk (vals, src', remaining', w)    (* break *)
+        else
+          gbind (go_dbp_miniblocks tw vpm ws' src' remaining')
+                (fun '(vs, s, r, wm) => GOk (vals ++ vs, s, r, N.max w wm))
   end.
 
 (** [for totalValues > 0 && len(src) > 0]: block header (min delta as a
@@ -94,10 +99,10 @@ Fixpoint go_dbp_blocks (fuel : nat) (k vpm nmb : N) (src : bytes) (remaining las
         | None => GErr
         | Some (md, s1) =>
             let '(ws, s2) := take_upto nmb s1 in
-            let '(us, s3, rem', wm) := go_dbp_miniblocks k vpm ws s2 remaining in
-            let '(xs, last') := recon k last (wrapZ k md) us in
-            gbind (go_dbp_blocks f k vpm nmb s3 rem' last')
-                  (fun '(ys, rest, wm') => GOk (xs ++ ys, rest, N.max wm wm'))
+            gbind (go_dbp_miniblocks k vpm ws s2 remaining) (fun '(us, s3, rem', wm) =>
+              let '(xs, last') := recon k last (wrapZ k md) us in
+              gbind (go_dbp_blocks f k vpm nmb s3 rem' last')
+                    (fun '(ys, rest, wm') => GOk (xs ++ ys, rest, N.max wm wm')))
         end
   end.
 
